@@ -84,7 +84,20 @@ def gen_data(ctx, d, nrec):
             n = rng.choice([30, 400, 520, 900, 1500, 2600, 4000]) + rng.randrange(0, 200)
             sq = rseq(rng, n)
             L.write(">l%04d\n%s\n" % (i, "\n".join(sq[k:k + 60] for k in range(0, n, 60))))
+    # heterogeneous annotation sets (obicsv --auto proposes its columns from "the first sequences"): several sizes, because
+    # which batch reaches the writer first depends on how long batch 0 takes to parse; the last record (always a batch of
+    # its own in the chunk reader) carries a key no other record has
+    for n in HET_SIZES:
+        with open(os.path.join(d, "het_%d.fasta" % n), "w") as H:
+            for i in range(n):
+                keys = sorted(rng.sample(["a", "b", "c", "d", "e"], rng.randrange(1, 4)))
+                H.write(">h%05d {%s}\n%s\n" % (i, ",".join('"%s":%d' % (k, rng.randrange(100)) for k in keys), rseq(rng, rng.randrange(20, 60))))
+            H.write('>hlast {"zz":1}\nacgt\n')
     return pf, pr
+
+
+HET_SIZES = (150, 1000, 3000, 7000)
+CHEAP_REPS = 6          # repetitions multiplier of the command lines on the small heterogeneous inputs
 
 
 def command_lines(d, pf, pr):
@@ -107,6 +120,9 @@ def command_lines(d, pf, pr):
         ("obicount", ["obicount", s]),
         ("obisummary", ["obisummary", "--json-output", s]),
         ("obicsv", ["obicsv", "--ids", "--count", "-s", "-k", "sample", s]),
+    ] + [("obicsv-auto-%d" % n, ["obicsv", "--auto", "--ids", "-s", os.path.join(d, "het_%d.fasta" % n)]) for n in HET_SIZES] + [
+        ("obiconvert-het", ["obiconvert", "--json-output", os.path.join(d, "het_1000.fasta")]),
+        ("obisummary-het", ["obisummary", "--json-output", os.path.join(d, "het_3000.fasta")]),
     ]
 
 
@@ -551,7 +567,7 @@ def inproc_judge(ctx, case, c, o, inp):
                                            first_diff_line=k, line_a=a[k].decode("utf8", "replace")[:400] if k < len(a) else None,
                                            line_b=b[k].decode("utf8", "replace")[:400] if k < len(b) else None))
         return
-    data = base64.b64decode(outs[0]["bytes"])
+    data = base64.b64decode(outs[0].get("bytes", ""))   # omitempty: an empty output has no field
     if c[0] == "pairing":
         return
     if c[0] == "count":
@@ -736,7 +752,7 @@ def _run(ctx, broken, d):
         name, argv = la
         ref, n, nt, trs = None, 0, set(), []
         for (c, b, g) in grid:
-            for rep in range(reps):
+            for rep in range(reps * (CHEAP_REPS if "-het" in name or "-auto-" in name else 1)):
                 tr = None
                 if rep == 0 and (c, b, g) in traced_cfg and (not ctx.quick or name in QUICK_TRACED):
                     tr = os.path.join(d, "trace_%s_%d_%d_%d.txt" % (name, c, b, g))
